@@ -23,6 +23,12 @@ for pid in sorted(pm):
             for j in e.get('jobs', []):
                 if j['name'].startswith('clear-expired'):
                     fs |= {'src/key/list.rs', 'src/key/entity.rs', 'src/lib.rs'}
+                elif j['name'] == 'finding':
+                    # regression witnesses: the collection each one exercises
+                    wu = {'F1': ['key', 'lists'], 'F2': ['key'], 'F3': ['key'], 'F4': ['set'], 'F5': ['lists'], 'F6': ['key'], 'F7': ['seg']}
+                    for fid in j.get('ids', []):
+                        for u in wu.get(fid, list(unit_files)):
+                            fs |= unit_files[u]
                 else:
                     fs |= set().union(*unit_files.values())
     if fs & files:
